@@ -23,6 +23,10 @@ use tu_verif::run::Run;
 const ALPHA: [&str; 5] = ["a", "b", "A", "-", " "];
 const CLUSTER_ALPHA: [&str; 3] = ["a", "x\u{301}", " "];
 const WIDE_ALPHA: [&str; 5] = ["ä", "Ä", "\u{fb01}", "1", " "];
+/// closest-entry phase: dictionaries are all sets of up to 3 of these words (1 to 4 bytes per
+/// character, different lengths in bytes and in characters) with frequencies 1 or 2
+const CLOSEST_WORDS: [&str; 10] = ["a", "b", "ab", "cd", "ä", "äb", "日", "日本", "日本c", "\u{10400}\u{10400}"];
+const CLOSEST_QUERIES: [&str; 12] = ["", "a", "b", "ab", "bb", "abc", "xyz", "ä", "日", "日本", "本c", "\u{10400}"];
 const QUERY_ALPHA: [&str; 3] = ["a", "b", "A"];
 const QUERY_MAX_LEN: usize = 3;
 const MAX_SIZES: [Option<usize>; 5] = [None, Some(0), Some(1), Some(2), Some(10)];
@@ -352,6 +356,62 @@ fn check_case(run: &mut Run, ctx: &mut Ctx, case: &Case) {
     }
 }
 
+/// closest-entry phase: one dictionary given as (word, frequency) pairs, built by the real `create`
+/// from a one-line file, then every query of the phase
+fn check_closest(run: &mut Run, ctx: &mut Ctx, entries: &[(String, usize)]) {
+    let case = json!({"closest_phase": true, "entries": entries});
+    run.evaluations += 1;
+    run.nontrivial += 1;
+    run.sample(|| case.clone());
+    let path = ctx.scratch.path("closest.txt");
+    let line: Vec<&str> = entries.iter().flat_map(|(w, f)| std::iter::repeat(w.as_str()).take(*f)).collect();
+    std::fs::write(&path, format!("{}\n", line.join(" "))).expect("cannot write file");
+    run.calls += 1;
+    let d = match catch(|| Dictionary::create(&[&path], None, None, 0, false, 1, false)) {
+        Ok(Ok(d)) => d,
+        other => {
+            run.violation("create-succeeds", "", case, format!("Dictionary::create failed: {:?}", other.map(|r| r.map(|_| ()).map_err(|e| e.to_string()))));
+            return;
+        }
+    };
+    // the entries the file must give according to the reference count (and, as a check of the
+    // phase itself, the entries it was meant to give)
+    let want: Items = reference_counts(&[vec![line.join(" ")]], None, false, 1).into_iter().collect();
+    if items_of(&d) != want {
+        run.violation("exact-frequencies", "", case, format!("dictionary {:?}, reference {want:?}", items_of(&d)));
+        return;
+    }
+    let mut meant: Items = entries.to_vec();
+    meant.sort();
+    if want != meant {
+        run.count("closest phase: dictionaries whose reference count differs from the intended entries");
+    }
+    run.compared += 1;
+    let queries: Vec<String> = CLOSEST_QUERIES.iter().map(|q| q.to_string()).collect();
+    run.calls += 2 * queries.len() as u64;
+    for (clause, class, detail) in oracle_closest(&d, &queries) {
+        run.violation(&clause, &class, case.clone(), detail);
+    }
+    run.count_n("get_closest queries judged", 2 * queries.len() as u64);
+}
+
+/// the dictionaries of the closest-entry phase: every set of 1..=3 words x frequencies in {1, 2}
+fn closest_specs() -> Vec<Vec<(String, usize)>> {
+    let n = CLOSEST_WORDS.len();
+    let mut out = vec![];
+    for mask in 1u32..(1 << n) {
+        let k = mask.count_ones() as usize;
+        if k > 3 {
+            continue;
+        }
+        let words: Vec<&str> = (0..n).filter(|i| mask & (1 << i) != 0).map(|i| CLOSEST_WORDS[i]).collect();
+        for f in 0..(1u32 << k) {
+            out.push(words.iter().enumerate().map(|(i, w)| (w.to_string(), 1 + ((f >> i) & 1) as usize)).collect());
+        }
+    }
+    out
+}
+
 // ------------------------------------------------------------------------------------------------
 // Engine B: the counting workers under the controlled scheduler (DESIGN 4.5)
 // ------------------------------------------------------------------------------------------------
@@ -491,6 +551,12 @@ fn main() {
             drop(ctx);
             run.finish();
         }
+        if c.get("closest_phase").is_some() {
+            let entries: Vec<(String, usize)> = c["entries"].as_array().unwrap().iter().map(|e| (e[0].as_str().unwrap().to_string(), e[1].as_u64().unwrap() as usize)).collect();
+            check_closest(&mut run, &mut ctx, &entries);
+            drop(ctx);
+            run.finish();
+        }
         check_case(&mut run, &mut ctx, &Case::from_json(&c));
         drop(ctx);
         run.finish();
@@ -586,7 +652,7 @@ fn main() {
                 println!("{}", json!({"files": cs[0].files, "grid": "max_size {0,1,2,10} x max_sequences {None,0,1,2} x {words, chars(1), chars(3)} x num_threads {0,1,2,3}; the extremes (max_size usize::MAX, max_sequences usize::MAX, both); with max_size 10 additionally every other way of terminating the lines (any set of files with an unterminated last line; CRLF)"}));
             }
         } else {
-            println!("{}", json!({"unit": n, "description": "no such unit"}));
+            println!("{}", json!({"unit": n, "closest_phase_chunk": n - units - sus.len(), "description": "64 dictionaries of the closest-entry phase x all its queries"}));
         }
         return;
     }
@@ -629,6 +695,17 @@ fn main() {
         // the same scenario with the reducer (the calling thread) controlled as well: its spawns and
         // receives are scheduling points and the count channel is the real bounded channel
         check_sched(&mut run, &mut ctx, &u.0, u.1, u.2, u.3, u.4, u.5, u.6.min(if u.5 >= 3 { cb - 1 } else { cb }), true, None);
+    }
+    // closest-entry phase: units of 64 dictionaries each, after the scheduler units
+    let specs = closest_specs();
+    run.bounds.insert("closest_phase".into(), json!(format!("{} dictionaries (every set of 1..=3 of {CLOSEST_WORDS:?} x frequencies in {{1, 2}}) x queries {CLOSEST_QUERIES:?} x {{edit distance, normalized edit distance}}", specs.len())));
+    for (k, chunk) in specs.chunks(64).enumerate() {
+        if !run.unit((units + sus.len() + k) as u64) {
+            continue;
+        }
+        for spec in chunk {
+            check_closest(&mut run, &mut ctx, spec);
+        }
     }
     for unit in 0..units {
         if !run.unit(unit as u64) {
